@@ -1618,13 +1618,8 @@ class HasRounds(GenericHandler):
                 and max_desired_rounds
                 and max_desired_rounds < subcls.min_desired_rounds
             ):
-                # inherited maximum lies below the new minimum: raise it, like an explicit
-                # maximum below an inherited minimum is raised below (else the window is empty,
-                # and every new hash would immediately need an update).
-                warn(
-                    f"{subcls.name}: max_desired_rounds ({max_desired_rounds!r}) below min_desired_rounds ({subcls.min_desired_rounds!r})",
-                    PasslibConfigWarning,
-                )
+                # inherited maximum lies below the new minimum: raise it along (else the window
+                # is empty, and every new hash would immediately need an update).
                 max_desired_rounds = subcls.max_desired_rounds = subcls.min_desired_rounds
         else:
             if isinstance(max_desired_rounds, str):
